@@ -167,13 +167,29 @@ package keeper
 // state_transition.go
 // ---------------------------------------------------------------------------------------------
 
-// Trusted here, decided elsewhere: construction of the StateDB (x/evm/vm, C03) and of the EVM object (NewEVM, C01/C17).
+// NewEVM (C17, exposure half; helper "cpc2"): the EVM object every execution path uses (deliver, check, simulate, eth_call,
+// tracing all come here). VERIFIED body. The custom precompiles wired into the returned EVM are EXACTLY the registry records
+// of the cpc module store seen through ctx (record i = the i-th entry under the prefix [2], prelude/48_cpc2_iterator.spec),
+// each under the address stored in its record — for EVERY msg, tracer, cfg and stateDB: no clause below mentions them.
+// The first two ensures are the summary other proofs (C05, C13, ...) rely on; they are now proved from the body.
+// Clauses are stated for a registry whose records carry 20-byte addresses (SetCustomPrecompiledContractMeta stores no other:
+// C17.valid_records_only).
 //@ func (k *Keeper) NewEVM(ctx sdk.Context, msg core.Message, cfg *evmvm.EVMConfig, tracer corevm.EVMLogger, stateDB corevm.StateDB) *corevm.EVM
-//@   assumed
+//@   requires k != nil && cfg != nil && k.cpcKeeper.storeKey != nil && k.cpcKeeper.cdc != nil
 //@   modifies nothing
 //@   ensures result != nil && fresh(result) && result.StateDB == stateDB && result.Context.BlockNumber != nil && bigval[result.Context.BlockNumber] == ctx.BlockHeight()
 //@   ensures result.Context.BaseFee == cfg.BaseFee && (result.Config.Debug ==> result.Config.Tracer != nil) && result.ChainConfig() == cfg.ChainConfig
-//@   panics never
+//@   ensures[C17.exposed_every_registered] (forall w int :: (0 <= w && w < kvSeqLen(kvHas[kvId(layer(ctx), payload(k.cpcKeeper.storeKey))], b1(2))) ==> blen(pbMetaAddr(kvVal[kvId(layer(ctx), payload(k.cpcKeeper.storeKey))][kvSeqKey(kvHas[kvId(layer(ctx), payload(k.cpcKeeper.storeKey))], b1(2), w)])) == 20) ==> (forall i int :: (0 <= i && i < kvSeqLen(kvHas[kvId(layer(ctx), payload(k.cpcKeeper.storeKey))], b1(2))) ==> (bytesAddr(pbMetaAddr(kvVal[kvId(layer(ctx), payload(k.cpcKeeper.storeKey))][kvSeqKey(kvHas[kvId(layer(ctx), payload(k.cpcKeeper.storeKey))], b1(2), i)])) in result.customPrecompiledContracts))
+//@   ensures[C17.exposed_only_registered] (forall w int :: (0 <= w && w < kvSeqLen(kvHas[kvId(layer(ctx), payload(k.cpcKeeper.storeKey))], b1(2))) ==> blen(pbMetaAddr(kvVal[kvId(layer(ctx), payload(k.cpcKeeper.storeKey))][kvSeqKey(kvHas[kvId(layer(ctx), payload(k.cpcKeeper.storeKey))], b1(2), w)])) == 20) ==> (forall a common.Address :: (a in result.customPrecompiledContracts) ==> (exists i int :: 0 <= i && i < kvSeqLen(kvHas[kvId(layer(ctx), payload(k.cpcKeeper.storeKey))], b1(2)) && bytesAddr(pbMetaAddr(kvVal[kvId(layer(ctx), payload(k.cpcKeeper.storeKey))][kvSeqKey(kvHas[kvId(layer(ctx), payload(k.cpcKeeper.storeKey))], b1(2), i)])) == a))
+//@   panics any
+//@ loop 1
+//@   fresh_writes
+//@   invariant -1 <= rangeindex && rangeindex < kvSeqLen(kvHas[kvId(layer(ctx), payload(k.cpcKeeper.storeKey))], b1(2)) && len(contracts) == rangeindex + 1 && (cap(contracts) == 0 || fresh(base(contracts)))
+//@   invariant forall j int :: (0 <= j && j <= rangeindex) ==> (typeof(contracts[j]) == type(*corevm.CustomPrecompiledContract) && unbox(contracts[j], type(*corevm.CustomPrecompiledContract)) != nil && !unbox(contracts[j], type(*corevm.CustomPrecompiledContract)).disabled)
+//@   invariant (forall w int :: (0 <= w && w < kvSeqLen(kvHas[kvId(layer(ctx), payload(k.cpcKeeper.storeKey))], b1(2))) ==> blen(pbMetaAddr(kvVal[kvId(layer(ctx), payload(k.cpcKeeper.storeKey))][kvSeqKey(kvHas[kvId(layer(ctx), payload(k.cpcKeeper.storeKey))], b1(2), w)])) == 20) ==> (forall j int :: (0 <= j && j <= rangeindex) ==> unbox(contracts[j], type(*corevm.CustomPrecompiledContract)).address == bytesAddr(pbMetaAddr(kvVal[kvId(layer(ctx), payload(k.cpcKeeper.storeKey))][kvSeqKey(kvHas[kvId(layer(ctx), payload(k.cpcKeeper.storeKey))], b1(2), j)])))
+//@ loop 2
+//@   fresh_writes
+//@   invariant -1 <= rangeindex && len(methods) == rangeindex + 1 && (cap(methods) == 0 || fresh(base(methods)))
 
 // ApplyMessageWithConfig: gas accounting of one executed message (C05) and the receipt it stores (C13).
 //@ func (k *Keeper) ApplyMessageWithConfig(ctx sdk.Context, msg core.Message, tracer corevm.EVMLogger, commit bool, cfg *evmvm.EVMConfig, txConfig evmvm.TxConfig) (res *evmtypes.MsgEthereumTxResponse, err error)
